@@ -133,6 +133,51 @@ def gen_string(rng, c03):
     return {"special": "string", "du": du, "mode": mode, "text": text, "period": q, "count": rng.randint(1, 2)}
 
 
+def gen_history(rng, c03):
+    """One simulation, the same ADD / DIVIDE request repeated while the inputs of its pieces change."""
+    du, ru = rng.choice([("month", "year"), ("month", "year"), ("month", "month"), ("day", "month"),
+                         ("weekday", "week"), ("week", "week"), ("year", "year"), ("day", "day")])
+    mode = "add" if rng.random() < 0.75 else "div"
+    n = rng.randint(1, 3)
+    ty = rng.choice(["int", "float"])
+    if mode == "add":
+        size = rng.choice([1, 1, 2]) if not (du == "day" and ru == "month") else 1
+        q = c03.gen_q(rng, ru, size, True)
+        pieces = c03.tiles(du, q)
+        vdu = du
+    else:
+        q = c03.gen_q(rng, du, 1, True)
+        vdu = ru
+        pieces = [c03.enclosing(vdu, q[1])]
+
+    def vals():
+        if ty == "int":
+            return [rng.randint(-20, 90) for _ in range(n)]
+        return [rng.choice([0.5, -2.25, 3.0, 12.0, 7.75, 100.0, -0.5]) for _ in range(n)]
+
+    inputs = [[t, vals()] for t in pieces if rng.random() < 0.8]
+    steps = []
+    cloned = False
+    for _ in range(rng.randint(2, 5)):
+        r = rng.random()
+        t = rng.choice(pieces)
+        if r < 0.25:
+            steps.append(["set", t, vals()])
+        elif r < 0.45:
+            steps.append(["holder-set", t, vals()])
+        elif r < 0.6:
+            steps.append(["delete", t if rng.random() < 0.7 else None])
+        elif r < 0.7:
+            steps.append(["repeat"])
+        elif not cloned:
+            cloned = True
+            steps.append([rng.choice(["clone-set", "clone-set", "clone-holder-set", "clone-orig-set"]), t, vals()])
+        else:
+            steps.append(["set", t, vals()])
+    return {"special": "history", "du": vdu, "mode": mode, "period": q, "count": n, "type": ty,
+            "default": rng.choice([0, 0, 3, -1]), "inputs": inputs, "steps": steps}
+
+
 BIG = [
     ("day", ["day", [1950, 1, 1], 32767]), ("day", ["day", [1950, 1, 1], 32768]), ("day", ["day", [1999, 12, 31], 32769]),
     ("day", ["year", [1950, 1, 1], 100]), ("day", ["year", [1930, 1, 1], 180]), ("day", ["day", [1904, 2, 29], 66000]),
@@ -285,6 +330,96 @@ def run_subperiods(case, c03):
     return out
 
 
+def _plain_variable(case, person):
+    ty = {"int": int, "float": float}[case["type"]]
+    return type("v", (Variable,), {"value_type": ty, "entity": person, "definition_period": UNIT_OBJ[case["du"]],
+                                   "default_value": ty(case["default"])})
+
+
+def run_history(case, c03):
+    n, q, mode = case["count"], case["period"], case["mode"]
+    dtype = numpy.int32 if case["type"] == "int" else numpy.float32
+    if mode == "add":
+        pieces = c03.tiles(case["du"], q)
+        count = None
+    else:
+        pieces = [c03.enclosing(case["du"], q[1])]
+        count = c03.count_in(q[0], pieces[0])
+
+    def array(vals):
+        return numpy.array(vals, dtype=dtype)
+
+    def ask(sim):
+        if mode == "add":
+            return _guard(lambda: enc(sim.calculate_add("v", mk_period(q))))
+        return _guard(lambda: enc(sim.calculate_divide("v", mk_period(q))))
+
+    def reference(inputs):
+        """what the request means for a simulation whose current inputs are `inputs`"""
+        ref = _simulation(lambda person: _plain_variable(case, person), n)
+        for k, vals in inputs.items():
+            ref.set_input("v", mk_period(list(k_to_period(k))), array(vals))
+        if mode == "add":
+            total = None
+            for t in pieces:
+                a = numpy.asarray(ref.calculate("v", mk_period(t)), dtype=numpy.float64)
+                total = a if total is None else total + a
+            return enc(total)
+        return enc(numpy.asarray(ref.calculate("v", mk_period(pieces[0])), dtype=numpy.float64) / count)
+
+    def key(t):
+        return (t[0], tuple(t[1]), t[2])
+
+    def k_to_period(k):
+        return [k[0], list(k[1]), k[2]]
+
+    sim = _simulation(lambda person: _plain_variable(case, person), n)
+    cur = {}
+    for t, vals in case["inputs"]:
+        sim.set_input("v", mk_period(t), array(vals))
+        cur[key(t)] = vals
+    clone, cur_clone = None, None
+    out = [{"after": "the initial inputs", "who": "the simulation", "got": ask(sim), "expected": reference(cur)}]
+    for i, st in enumerate(case["steps"]):
+        op = st[0]
+        what = f"step {i} {st}"
+        if op == "set":
+            sim.set_input("v", mk_period(st[1]), array(st[2]))
+            cur[key(st[1])] = st[2]
+        elif op == "holder-set":
+            sim.persons.get_holder("v").set_input(mk_period(st[1]), array(st[2]))
+            cur[key(st[1])] = st[2]
+        elif op == "delete":
+            if st[1] is None:
+                sim.delete_arrays("v")
+                cur = {}
+            else:
+                sim.delete_arrays("v", mk_period(st[1]))
+                cur.pop(key(st[1]), None)
+        elif op == "repeat":
+            pass
+        elif op in ("clone-set", "clone-holder-set", "clone-orig-set"):
+            clone = sim.clone()
+            cur_clone = dict(cur)
+            if op == "clone-set":
+                clone.set_input("v", mk_period(st[1]), array(st[2]))
+                cur_clone[key(st[1])] = st[2]
+            elif op == "clone-holder-set":
+                clone.persons.get_holder("v").set_input(mk_period(st[1]), array(st[2]))
+                cur_clone[key(st[1])] = st[2]
+            else:
+                sim.set_input("v", mk_period(st[1]), array(st[2]))
+                cur[key(st[1])] = st[2]
+        else:
+            raise AssertionError(st)
+        order = [("the clone", clone, cur_clone), ("the original", sim, cur)] if clone is not None else [("the simulation", sim, cur)]
+        if op == "clone-orig-set":
+            order.reverse()
+        for who, s_, c_ in order:
+            out.append({"after": what, "who": who, "got": ask(s_), "expected": reference(c_)})
+    return out
+
+
 def run(case, c03):
     with warnings.catch_warnings():
         warnings.simplefilter("ignore")
@@ -295,6 +430,8 @@ def run(case, c03):
             return run_string(case, c03)
         if kind == "subperiods":
             return run_subperiods(case, c03)
+        if kind == "history":
+            return run_history(case, c03)
     raise AssertionError(kind)
 
 
@@ -304,6 +441,18 @@ def run(case, c03):
 
 def oracle(case, o):
     kind = case["special"]
+    if kind == "history":
+        name = "ADD" if case["mode"] == "add" else "DIVIDE"
+        for e in o:
+            if isinstance(e["got"], Err):
+                return (f"refused: {name} of a {case['du']} variable over {case['period']} on {e['who']} after "
+                        f"{e['after']} is in scope but raised {e['got'].kind} ({e['got'].msg})")
+            if not same_floats(e["got"], e["expected"], 0.0 if case["mode"] == "add" else 1e-6):
+                meaning = ("the sum of its current values over the pieces" if case["mode"] == "add"
+                           else "its current value at the enclosing definition period over the count")
+                return (f"history: {name} of a {case['du']} variable over {case['period']} asked on {e['who']} after "
+                        f"{e['after']} returned {e['got']}; {meaning} is {e['expected']}")
+        return None
     if kind == "float":
         what = ("ADD" if case["mode"] == "add" else "DIVIDE") + f" of a float variable ({case['du']}, default {case['default']}) over {case['period']}"
         if isinstance(o["got"], Err):
